@@ -1,6 +1,7 @@
 """Merge /verif/findings/*.json into known_findings.json, skipping keys listed in FIXED (fixed by commits in /repo)."""
 import glob, json, subprocess, sys
 FIXED = {  # key -> (property, commit subject prefix)
+  "C08:rk4:filterexact-stage-activation": ("C08", "fix: rungekutta4 perturbs stage activations by plain Euler"),
   "C17:exception:ZeroDivisionError:njmax=0:sleep": ("C17", "fix: dense Newton Hessian kernels accept njmax == 0"),
   "C13:reset_data:stale-nan-efc-J-rows": ("C13", "fix: reset_data clears the constraint Jacobian"),
   "C40:flex_geom_vertex:normal-reversed": ("C40", "fix: 1D flex vertex contacts point from the geom"),
